@@ -28,18 +28,34 @@ type descriptor struct {
 	// on a mock clock, running from the creation of the instance); "clock"
 	// stimuli move the clock, alone or concurrently with competing events
 	Timer bool `json:"timer,omitempty"`
+	// InSub: the gateway, its alternatives and their tasks sit inside 1..2
+	// nested embedded sub-processes (events handed to the instance must reach
+	// the alternatives there just the same)
+	InSub int `json:"inSub,omitempty"`
 }
 
 const timerExpr = "PT10S"
 
 func build(d descriptor) *gen.Graph {
-	b := gen.NewB()
+	root := gen.NewB()
+	b := root
 	st := b.Add(gen.KStart)
 	cur := st
 	if d.PreTask {
 		t := b.Add(gen.KTask)
 		b.Connect(cur, t)
 		cur = t
+	}
+	for lvl := 0; lvl < d.InSub; lvl++ {
+		// cur -> subProcess -> end at this level; continue building inside
+		sp := b.Add(gen.KSub)
+		en := b.Add(gen.KEnd)
+		b.Connect(cur, sp)
+		b.Connect(sp, en)
+		ib := b.Sub()
+		sp.Inner = ib.G
+		b = ib
+		cur = b.Add(gen.KStart)
 	}
 	eg := b.Add(gen.KEbg)
 	b.Connect(cur, eg)
@@ -66,7 +82,7 @@ func build(d descriptor) *gen.Graph {
 			b.Connect(t, en)
 		}
 	}
-	return b.G
+	return root.G
 }
 
 func evOf(d gen.EventDef) *model.Ev {
@@ -80,6 +96,7 @@ func draw(rt *rapid.T) descriptor {
 	d := descriptor{PreTask: rapid.Bool().Draw(rt, "preTask"), Merge: rapid.Bool().Draw(rt, "merge"), Perturb: uint64(rapid.IntRange(0, 300).Draw(rt, "perturb"))}
 	n := rapid.IntRange(2, 3).Draw(rt, "alts")
 	d.Timer = rapid.IntRange(0, 2).Draw(rt, "timerAlt") == 0
+	d.InSub = rapid.SampledFrom([]int{0, 0, 0, 1, 2}).Draw(rt, "inSub")
 	for i := 0; i < n; i++ {
 		ref := fmt.Sprintf("a%d", i)
 		if d.Timer && i == n-1 {
@@ -242,6 +259,9 @@ func classify(d descriptor, out *drive.ScriptOutcome) (cls []string, nt bool) {
 	}
 	if d.Timer {
 		cls = append(cls, "timerAlternative")
+	}
+	if d.InSub > 0 {
+		cls = append(cls, "insideSubProcess")
 	}
 	if timerRace {
 		cls = append(cls, "timerDueDuringConcurrentDelivery")
